@@ -142,6 +142,8 @@ class W(fullwire.FullWorld):
         # spent): the peer cannot decrypt what follows and drops the connection; usable again means: after the reconnect
         self.doomed_connection = (self.site["dir"] == "down" and self.site["kind"] == "injected" and self.site["layer"] in (0, 1))
         self.app_exceptions = []
+        self.dead_session = False
+        self.stray_reported = False
         self.tolerant = bool(self.site.get("tolerant"))
         self.rx_errors = []
 
@@ -150,7 +152,17 @@ class W(fullwire.FullWorld):
 
     def expect_wire_violation(self, c, e):
         # a real server drops a connection whose frames no longer decrypt; expected after a frame was lost below Noise
-        return self.doomed_connection and self.fired > 0
+        if self.doomed_connection and self.fired > 0:
+            return True
+        if self.site["kind"] == "session_not_ready" and self.dead_session:
+            # known finding F34, second face: the stanza encrypted with the dead session was not dropped but written to the
+            # socket of the next connection, ahead of (or into) its prologue; the server drops that connection
+            if not self.stray_reported:
+                self.stray_reported = True
+                self.violate("silently-dropped/%s/dead-session-still-installed/written-to-the-next-connection" % self.label(),
+                             "connection %d: %s" % (c.no, e))
+            return True
+        return False
 
     def label(self):
         s = self.site
@@ -297,7 +309,7 @@ class W(fullwire.FullWorld):
             self.wait_until(lambda: self.disc > d0, 40)
             ent, sid = self.good_entity()
             proto = getattr(self.noise, "_wa_noiseprotocol", None)
-            dead_session = (proto is not None and proto.state == "transport" and not self.netlayer.connected)
+            dead_session = self.dead_session = (proto is not None and proto.state == "transport" and not self.netlayer.connected)
             ex = self.app_send(ent)
             self.fired += 1
             self.faults["natural_down"] = 1
